@@ -308,11 +308,29 @@ static int print_f(void (*printchar_handler)(void *d, int c),
         if (fp != 0.0L)
             while (ip == 0.0L)
                 fp = MODF((ip + fp) * base, &ip), ep -= 1.0L;
-        if ((ep < -4) || (ep >= precision))
-            with_exp = 1;
+        if (is_shortened)
+        {
+            /* %g: precision is the number of significant digits P. With X the
+             * exponent of the value rounded to P digits, style e is used if
+             * X < -4 or X >= P; the fraction then has P - 1 digits, and
+             * P - 1 - X digits in style f */
+            if ((precision <= PRINT_F_FRAC_DIGITS) &&
+                (roundl((ep >= -5) && (ep < precision)
+                            ? (DOUBLE)r * POW(base, precision - 1 - ep)
+                            : (ip + fp) * POW(base, precision - 1)) >=
+                 POW(base, precision)))
+            {
+                /* rounding to P digits reaches the next power of the base:
+                 * go on with that power */
+                ep += 1.0L, ip = 1.0L, fp = 0.0L;
+                r = POW(base, ep);
+            }
+            if ((ep < -4) || (ep >= precision))
+                with_exp = 1;
+            precision -= with_exp ? 1 : (int)ep + 1;
+        }
     }
     fp = with_exp ? fp : MODF(r, &ip);
-    precision -= (int)(is_shortened ? ceill(LOG10(ip)) + (ip != 0.0L) : 0);
     for (; (sign_count < MIN(precision, PRINT_F_FRAC_DIGITS)) &&
            (FMOD(fp, 1.0L) != 0.0L);
          ++sign_count)
@@ -324,6 +342,10 @@ static int print_f(void (*printchar_handler)(void *d, int c),
     fp = fp != POW(base, sign_count) ? fp : 0.0L;
     if (with_exp && (ip >= base))
         fp = MODF((ip + fp) / base, &ip), ep += 1.0L;
+    /* %g without #: trailing zeros of the fraction are removed */
+    if (is_shortened && !(ops & OPS_FLAG_WITH_SPEC))
+        while (sign_count && (FMOD(fp, base) == 0.0L))
+            fp /= base, --sign_count;
 
     if (with_exp)
     {
@@ -371,7 +393,9 @@ static int print_f(void (*printchar_handler)(void *d, int c),
 
     len = (int)(end - str);
     postfix_len = (int)strlen(postfix);
-    zero_left = is_shortened ? 0 : precision - sign_count;
+    zero_left = is_shortened && !(ops & OPS_FLAG_WITH_SPEC)
+                    ? 0
+                    : precision - sign_count;
     pad_count = MAX(width - prefix_len - len - zero_left - postfix_len, 0);
 
     if (!(ops & (OPS_FLAG_ZERO_PAD | OPS_FLAG_LEFT_ALIGN)))
